@@ -10,6 +10,129 @@ func rawTemplate(class string, n int) string { return strings.Repeat("{"+class+"
 // syntaxAlphabet: the syntax-relevant 16+ symbol alphabet per ecosystem (second C06 pass).
 const syntaxClass = "[019axv.\\-+~^_:, |<>=!*\\[\\]()]"
 
+// splitFirst partitions the byte set of the first class position of a template into at most
+// `parts` chunks and returns one template per chunk (together they cover exactly the original):
+// the work of a heavy raw-mode configuration is spread over the workers and each piece stays
+// well inside the per-configuration budget.
+func splitFirst(t string, parts int) []string {
+	pos, err := parseTemplate(t)
+	if err != nil {
+		return []string{t}
+	}
+	first := -1
+	for i, p := range pos {
+		if !p.lit {
+			first = i
+			break
+		}
+	}
+	if first < 0 || parts <= 1 {
+		return []string{t}
+	}
+	var members []int
+	for c := 0; c < 256; c++ {
+		if pos[first].set.Has(c) {
+			members = append(members, c)
+		}
+	}
+	if len(members) < 2 {
+		return []string{t}
+	}
+	if parts > len(members) {
+		parts = len(members)
+	}
+	render := func(i int, set []int) string {
+		var sb strings.Builder
+		for j, p := range pos {
+			switch {
+			case j == i:
+				sb.WriteString("{[")
+				// ']' first, so that the text "]}" only occurs at the end of the set
+				for _, c := range set {
+					if c == ']' {
+						sb.WriteString("\\]")
+					}
+				}
+				for _, c := range set {
+					switch c {
+					case ']':
+					case '\\', '-', '^', '{', '}':
+						sb.WriteByte('\\')
+						sb.WriteByte(byte(c))
+					case '\t':
+						sb.WriteString("\\t")
+					case '\n':
+						sb.WriteString("\\n")
+					case '\r':
+						sb.WriteString("\\r")
+					case 0:
+						sb.WriteString("\\0")
+					default:
+						sb.WriteByte(byte(c))
+					}
+				}
+				sb.WriteString("]}")
+			case p.lit:
+				if p.b == '{' || p.b == '\\' {
+					sb.WriteByte('\\')
+				}
+				sb.WriteByte(p.b)
+			default:
+				if strings.HasPrefix(p.label, "[") {
+					sb.WriteString("{" + p.label + "}")
+				} else {
+					sb.WriteString("{" + p.label + "}")
+				}
+			}
+		}
+		return sb.String()
+	}
+	var out []string
+	var union ByteSet
+	for k := 0; k < parts; k++ {
+		lo, hi := k*len(members)/parts, (k+1)*len(members)/parts
+		if lo < hi {
+			r := render(first, members[lo:hi])
+			// self-check: the piece parses back to the same positions with exactly this chunk first
+			q, err := parseTemplate(r)
+			if err != nil || len(q) != len(pos) {
+				panic("splitFirst: piece does not parse back: " + r)
+			}
+			for j := range q {
+				if j == first {
+					for _, c := range members[lo:hi] {
+						if !q[j].set.Has(c) {
+							panic("splitFirst: piece lost a member: " + r)
+						}
+					}
+					if q[j].set.Count() != hi-lo {
+						panic("splitFirst: piece gained a member: " + r)
+					}
+					for c := 0; c < 256; c++ {
+						if q[j].set.Has(c) {
+							union.Add(c)
+						}
+					}
+				} else if q[j].lit != pos[j].lit || q[j].b != pos[j].b || q[j].set != pos[j].set {
+					panic("splitFirst: piece changed another position: " + r)
+				}
+			}
+			out = append(out, r)
+		}
+	}
+	if union != pos[first].set {
+		panic("splitFirst: pieces do not cover the original set: " + t)
+	}
+	return out
+}
+
+func splitIf(cond bool, t string, parts int) []string {
+	if !cond {
+		return []string{t}
+	}
+	return splitFirst(t, parts)
+}
+
 func init() {
 	registerCheck(&CheckDef{
 		ID:    "C06",
@@ -24,22 +147,30 @@ func init() {
 			}
 			for _, eco := range ecosystems {
 				for n := 0; n <= nv; n++ {
-					out = append(out, &Config{ID: fmt.Sprintf("C06/V/%s/ascii%d", eco, n), Pkg: zzhPkg, Func: "C06V", NoPanic: true, ScalarMergeOnly: true, Args: []ArgSpec{ArgStr(eco), ArgTmpl(rawTemplate("A", n))}})
+					for k, t := range splitIf(n >= 5, rawTemplate("A", n), 8) {
+						out = append(out, &Config{ID: fmt.Sprintf("C06/V/%s/ascii%d/%d", eco, n, k), Pkg: zzhPkg, Func: "C06V", NoPanic: true, ScalarMergeOnly: true, Args: []ArgSpec{ArgStr(eco), ArgTmpl(t)}})
+					}
 				}
 				for n := nv + 1; n <= ns; n++ {
-					out = append(out, &Config{ID: fmt.Sprintf("C06/V/%s/syntax%d", eco, n), Pkg: zzhPkg, Func: "C06V", NoPanic: true, ScalarMergeOnly: true, Args: []ArgSpec{ArgStr(eco), ArgTmpl(rawTemplate(syntaxClass, n))}})
+					for k, t := range splitIf(n >= 6, rawTemplate(syntaxClass, n), 9) {
+						out = append(out, &Config{ID: fmt.Sprintf("C06/V/%s/syntax%d/%d", eco, n, k), Pkg: zzhPkg, Func: "C06V", NoPanic: true, ScalarMergeOnly: true, Args: []ArgSpec{ArgStr(eco), ArgTmpl(t)}})
+					}
 				}
 				probe := thin(versionTemplates(eco, "s"), 2)
 				for n := 0; n <= nr; n++ {
 					for _, p := range probe {
-						out = append(out, &Config{ID: fmt.Sprintf("C06/R/%s/ascii%d/%s", eco, n, p), Pkg: zzhPkg, Func: "C06R", NoPanic: true, ScalarMergeOnly: true, Args: []ArgSpec{ArgStr(eco), ArgTmpl(rawTemplate("A", n)), ArgTmpl(p)}})
+						for k, t := range splitIf(n >= 4, rawTemplate("A", n), 8) {
+							out = append(out, &Config{ID: fmt.Sprintf("C06/R/%s/ascii%d/%s/%d", eco, n, p, k), Pkg: zzhPkg, Func: "C06R", NoPanic: true, ScalarMergeOnly: true, Args: []ArgSpec{ArgStr(eco), ArgTmpl(t), ArgTmpl(p)}})
+						}
 					}
 				}
 				for n := nr + 1; n <= nr+2; n++ {
 					if tier != "thorough" && n == nr+2 && (eco == "composer" || eco == "maven" || eco == "conan" || eco == "cargo" || eco == "npm") {
 						continue // too many paths for the quick budget
 					}
-					out = append(out, &Config{ID: fmt.Sprintf("C06/R/%s/syntax%d", eco, n), Pkg: zzhPkg, Func: "C06R", NoPanic: true, ScalarMergeOnly: true, Args: []ArgSpec{ArgStr(eco), ArgTmpl(rawTemplate(syntaxClass, n)), ArgTmpl(probe[0])}})
+					for k, t := range splitIf(n >= 5, rawTemplate(syntaxClass, n), 9) {
+						out = append(out, &Config{ID: fmt.Sprintf("C06/R/%s/syntax%d/%d", eco, n, k), Pkg: zzhPkg, Func: "C06R", NoPanic: true, ScalarMergeOnly: true, Args: []ArgSpec{ArgStr(eco), ArgTmpl(t), ArgTmpl(probe[0])}})
+					}
 				}
 			}
 			// vers.Contains: raw tails after a valid prefix, raw heads, raw versions
@@ -60,8 +191,10 @@ func init() {
 			for n := 0; n <= nt+2; n++ {
 				out = append(out, &Config{ID: fmt.Sprintf("C06/vers/head%d", n), Pkg: zzhPkg, Func: "C06Vers", NoPanic: true, ScalarMergeOnly: true,
 					Args: []ArgSpec{ArgTmpl(rawTemplate("A", n) + ">=1.0|<2"), ArgStr("1.5")}})
-				out = append(out, &Config{ID: fmt.Sprintf("C06/vers/syntax%d", n+2), Pkg: zzhPkg, Func: "C06Vers", NoPanic: true, ScalarMergeOnly: true,
-					Args: []ArgSpec{ArgTmpl("vers:npm/" + rawTemplate("[0-9v.<>=!*| a\\-]", n+2)), ArgStr("1.5.0")}})
+				for k, t := range splitIf(n+2 >= 7, "vers:npm/"+rawTemplate("[0-9v.<>=!*| a\\-]", n+2), 6) {
+					out = append(out, &Config{ID: fmt.Sprintf("C06/vers/syntax%d/%d", n+2, k), Pkg: zzhPkg, Func: "C06Vers", NoPanic: true, ScalarMergeOnly: true,
+						Args: []ArgSpec{ArgTmpl(t), ArgStr("1.5.0")}})
+				}
 			}
 			// CLI argument vectors (run never panics, exit status 0 or 1, a line is written)
 			for n := 0; n <= 5; n++ {
@@ -70,8 +203,10 @@ func init() {
 						if n < 2 && cm != "compare" {
 							continue
 						}
-						out = append(out, &Config{ID: fmt.Sprintf("C06/cli/%d/%s/%s", n, nm, cm), Pkg: cmdPkg, Func: "C15Argv", NoPanic: true, ScalarMergeOnly: true,
-							Args: []ArgSpec{ArgInt(int64(n)), ArgTmpl(nm), ArgTmpl(cm), ArgTmpl("{A}{A}{A}"), ArgTmpl("{A}{A}"), ArgTmpl("{A}")}})
+						for k, t := range splitIf(n >= 4, "{A}{A}{A}", 8) {
+							out = append(out, &Config{ID: fmt.Sprintf("C06/cli/%d/%s/%s/%d", n, nm, cm, k), Pkg: cmdPkg, Func: "C15Argv", NoPanic: true, ScalarMergeOnly: true,
+								Args: []ArgSpec{ArgInt(int64(n)), ArgTmpl(nm), ArgTmpl(cm), ArgTmpl(t), ArgTmpl("{A}{A}"), ArgTmpl("{A}")}})
+						}
 					}
 				}
 			}
